@@ -38,7 +38,7 @@ func printManifest() {
 			"technique":  "static analysis: " + r.Meta.Templates,
 		})
 	}
-	var na []map[string]string
+	na := []map[string]string{}
 	var naIDs []string
 	for id := range rules.NotApplicable {
 		naIDs = append(naIDs, id)
